@@ -28,6 +28,7 @@ class RunCtx:
         self.eval_cost = 0.0  # simulated seconds charged per posterior evaluation
         self.grad_cost = 0.0
         self.eval_budget = None  # evaluations left for the operation in progress (None = unlimited)
+        self.eval_budgets = {}  # the same, per target tag (samplers that run interleaved in kernel tasks)
         self.eval_stalls = {}  # evaluation number -> cost multiplier (injected slow step)
         self.monitors = []  # callables(kind, tag, theta) invoked at every evaluation
 
